@@ -170,7 +170,7 @@ class PLIST(Filetype):
     def build_tree_handling_errors(self, path: str, options: Optional[BuildOptions] = None) -> Union[str, TreeNode]:
         try:
             return self.build_tree(path=path, options=options)
-        except (ExpatError, InvalidFileException, ValueError, LookupError) as ee:
+        except (ExpatError, InvalidFileException, ValueError, LookupError, AttributeError) as ee:
             return f'Error parsing {os.path.basename(path)}: {ee})'
 
     def get_default_formatter(self) -> PLISTFormatter:
